@@ -288,7 +288,7 @@ def uBuild (C : UCfg) (P : Params) (ep : Nat → Nat × Nat) : List Nat → Nat 
 
 /-- `if prev[a] == 2*size { prev[a] = v }` -/
 def circ1 (nil : Nat) (prev : Nat → Nat) (a v : Nat) : Nat → Nat :=
-  if prev a = nil then upd prev a v else prev
+  upd prev a (if prev a = nil then v else prev a)
 
 /-- "make prev lists circular": `for n in 0..size { if prev[2n] == 2*size {..}; if prev[2n+1] == 2*size {..} }` -/
 def uCirc (C : UCfg) (P : Params) (size : Nat) (s : USt) : Nat → (Nat → Nat) → (Nat → Nat)
